@@ -423,7 +423,7 @@ def c02(ctx):
     # the same primaries WRITTEN AS TEXT: the real parser reads them, the program is judged against the tree the
     # specification gives for the text (a parser that changes the meaning of an argument is invisible to trees built
     # through the constructors)
-    gt_sem(ctx, acc, 'c02texts', 'texts2', pick(ctx, 2, 15), SEM_KINDS | {'refused-supported', 'accepted-unsupported'}, emit=('EmitTree', 'EmitTexts2'))
+    gt_sem(ctx, acc, 'c02texts', 'texts2', pick(ctx, 2, 4), SEM_KINDS | {'refused-supported', 'accepted-unsupported'}, emit=('EmitTree', 'EmitTexts2'))
     gt_sem(ctx, acc, 'c02ops', 'ops', pick(ctx, 3, 4), SEM_KINDS, extra_rec=['--warmup'])
     gt_sem(ctx, acc, 'c02pairs', 'pairs', 2, SEM_KINDS, consts='CONSTANT MaxFiles = 60\nCONSTANT Static = FALSE\n')
     # chains with 15..30 resources (indices of two digits and more) executed on three files
